@@ -69,7 +69,7 @@ CutOut(n, K) ==
     IN Restrict(n, K, S1, T1, X1, I1)
 
 Impl(n, a) ==
-    CASE a.op = "net_remove_lanelet" -> CleanLanelets(n, n.L \ IdSet(a))
+    CASE a.op \in {"net_remove_lanelet", "net_remove_lanelet_nortree"} -> CleanLanelets(n, n.L \ IdSet(a))
       [] a.op = "sc_remove_lanelet"  -> CleanLanelets(IF a.ref = 1 THEN RemoveHanging(n, IdSet(a)) ELSE n, n.L \ IdSet(a))
       [] a.op \in {"net_remove_sign", "sc_remove_sign"}   -> CleanRefs(n, n.S \ IdSet(a), n.T)
       [] a.op \in {"net_remove_light", "sc_remove_light"} -> CleanRefs(n, n.S, n.T \ IdSet(a))
@@ -82,7 +82,7 @@ SeqsOf(S) == {<<x>> : x \in S} \cup ({<<x, y>> : x, y \in S} \ {<<x, x>> : x \in
 RECURSIVE SetToSortedSeq(_)
 SetToSortedSeq(S) == IF S = {} THEN <<>> ELSE LET m == CHOOSE x \in S : \A y \in S : x <= y IN <<m>> \o SetToSortedSeq(S \ {m})
 Ops(n) ==
-    {A("net_remove_lanelet", <<i>>, 0) : i \in n.L}
+    {A(o, <<i>>, 0) : o \in {"net_remove_lanelet", "net_remove_lanelet_nortree"}, i \in n.L}
     \cup {A("sc_remove_lanelet", q, r) : q \in SeqsOf(n.L), r \in {0, 1}}
     \cup {A(o, <<s>>, 0) : o \in {"net_remove_sign", "sc_remove_sign"}, s \in n.S}
     \cup {A("sc_remove_sign", q, 1) : q \in {q \in SeqsOf(n.S) : Len(q) = 2}}
